@@ -221,6 +221,19 @@ CHECKS = {
         "the two families diverge on repaired labels - an observation, not a violation), exponent-form reals in the "
         "dumps comparison.",
    ref='5 (C19)', technique='differential symbolic execution (symx) of pvl.new vs pvl loaders/dumpers on templates with symbolic parts; z3'),
+ 'C20': dict(
+   text="Bounded symbolic execution of the reachable kernels of the two tools. pvl_validate.pvl_flavor on the real "
+        "module-level dialect table for texts with symbolic parts (C08 gap templates with every removal pattern, "
+        "quoted/unquoted values of 1-2 symbolic characters, keyword letter cases, units, non-canonical numbers, times "
+        "with symbolic digits incl. zone offsets and sub-millisecond fractions) against the harness's OWN table of "
+        "parser/grammar/decoder/encoder classes per dialect: 'loads' <=> that dialect's load succeeds, 'encodes' <=> "
+        "dumping the loaded module with that dialect's encoder succeeds. report / report_many / build_line for "
+        "EVERY combination of the 5 x (loads, encodes) verdicts (solver-chosen) and 1-3 files against an independent "
+        "rendering of the layout. pvl_translate.formats[F].dump(module, stream) writes exactly pvl.dumps(module, "
+        "encoder=<F's encoder class>()) for modules with a symbolic string leaf; JSON on concrete modules. NOT "
+        "reachable and not claimed: argparse, FileType opening, stdin/stdout, logging text, exit status - main(argv) "
+        "is exercised only by the existing tests.",
+   ref='5 (C20), 6', technique='symbolic execution (symx) of pvl_flavor/report/format writers vs an independent dialect table and layout; z3'),
 }
 NA_REASON = "check not built yet (construction in progress, see DESIGN.md section 8)"
 
